@@ -187,13 +187,13 @@ class MultiTypeMap(dict):
             rval = [candidates[0]]
             c1 = candidates[0]
             for c2 in candidates[1:]:
-                if c1.dominates(c2):
-                    # Candidate 1 dominates candidate 2
+                if any(c.dominates(c2) for c in rval):
+                    # A member of the group dominates candidate 2
                     continue
                 else:
                     processed.add(c2.handler)
-                    # Candidate 1 does not dominate candidate 2, so we add it
-                    # to the list.
+                    # No member of the group dominates candidate 2, so we
+                    # add it to the list.
                     rval.append(c2)
             yield rval
             if len(rval) >= 1:
